@@ -4,14 +4,14 @@ From PraatIO Require Import Tier.TierModel Tier.CtorProofs Tier.CropProofs Tier.
 (* the model of IntervalTier.insertEntry (crop-lax matches, delete, append,
    sort, span update) equals the collision-policy specification on every
    well-formed tier, for every entry and mode *)
-Theorem C11_insert_meets_policy t e mode : wf_itier t -> insert_i t e mode = insert_spec t e mode.
-Proof. exact (insert_i_spec t e mode). Qed.
+Theorem C11_insert_meets_policy t e mode : wf_itier t -> insert_i t e mode = insert_spec t (strip_i e) mode.
+Proof. exact (insert_i_public_spec t e mode). Qed.
 Print Assumptions C11_insert_meets_policy.
 
 (* afterwards the entries are again sorted, positive, pairwise non-overlapping
    and inside the (just enough grown) span *)
 Theorem C11_insert_keeps_order_and_span t e mode t' :
-  wf_itier t -> insert_i t e mode = Ok t' ->
+  wf_itier t -> insert_i_core t e mode = Ok t' ->
   wf_ients (ients t') /\ Forall (in_span (imin t') (imax t')) (ients t').
 Proof. exact (insert_i_wf_ients t e mode t'). Qed.
 Print Assumptions C11_insert_keeps_order_and_span.
@@ -33,7 +33,7 @@ Proof. exact (isorti_snoc l x). Qed.
 Print Assumptions C11_sorted_insert_position.
 
 Theorem C11_span_grows_just_enough t e mode t' :
-  wf_itier t -> insert_i t e mode = Ok t' ->
+  wf_itier t -> insert_i_core t e mode = Ok t' ->
   imin t' = Z.min (imin t) (istart e) /\ imax t' = Z.max (imax t) (iend e).
 Proof.
   intros Hwf. rewrite (insert_i_spec _ _ _ Hwf). unfold insert_spec.
